@@ -75,6 +75,7 @@ class XyeEngine(Engine):
         import signal
 
         signal.signal(signal.SIGXFSZ, signal.SIG_IGN)
+        seams.install_gzip_clock()  # gzip stamps its header with the wall clock
 
     # ------------------------------------------------------------- generate
     def _gvals(self, rng, n, kind):
@@ -154,7 +155,9 @@ class XyeEngine(Engine):
             "variances": {"seed": rng.randrange(1 << 32)} if compact else self._gvals(rng, n, "var"),
             "header": header,
             "sink": rng.choice(["mem", "mem", "path", "path_str", "fileobj"]),
-            "fname": rng.choice(["t.xye", "d/t.xye", "name with blanks.dat", "x"]),
+            # numpy's text I/O compresses / decompresses by file-name suffix
+            "fname": rng.choice(["t.xye", "d/t.xye", "name with blanks.dat", "x", "t.xye", "t.xye.gz",
+                                 "d/t.dat.bz2", "t.xz", "T.XYE", "t.xye.GZ"]),
             "load_coord": rng.choice([None, None, "loaded_coord"]),
             "fresh_process": rng.random() < 0.3,
             "layout": rng.choice(["plain", "plain", "slice", "strided"]),
@@ -400,6 +403,8 @@ class XyeEngine(Engine):
 
     def execute(self, scn, ctx, scratch):
         self._last_target = None
+        seams.GZIP_TIME.reset()
+        seams.GZIP_TIME.ctx = ctx
         self._execute_main(scn, ctx, scratch)
         if scn.get("second") and self._last_target is not None and not ctx.violations:
             self._second_write(scn, ctx, self._last_target)
